@@ -79,6 +79,13 @@ class Check:
 
     # -- finishing -----------------------------------------------------------------
     def finish(self, explanation, exhaustive=False, extra_cov=None):
+        if getattr(self, 'silent', False):
+            # a sub-check run on behalf of another property (see borrow()): no evidence file, no output
+            for rid, r in self.rules.items():
+                if r['instances'] < r['floor']:
+                    self.errors.append('rule %s matched %d instances, floor is %d (anchor lost)'
+                                       % (rid, r['instances'], r['floor']))
+            return 0
         for rid, r in self.rules.items():
             if r['instances'] < r['floor']:
                 self.errors.append('rule %s matched %d instances, floor is %d (anchor lost)'
@@ -158,3 +165,36 @@ class Check:
                   % (self.pid, 'HOLDS' if not new else 'VIOLATED', instances, len(listed), len(new), wall))
         out.flush()
         return 1 if new else 0
+
+
+def borrow(ctx, chk, rid, kind, text, module, rules, floor=1):
+    """Decide clause `rid` of the property `chk` belongs to with the rules `rules` of a sibling property's module: the
+    sibling's rule code is run silently and the verdicts of the named rules are re-filed under `rid` (a property whose
+    statement includes a clause another property spells out in detail must not depend on that other check being run)."""
+    import importlib
+    chk.rule(rid, kind, text, floor=floor)
+    mod = importlib.import_module('gbsa.rules.' + module)
+    sub = Check(module.upper(), chk.tier)
+    sub.silent = True
+    try:
+        mod.run(ctx, sub)
+    except Exception as e:        # noqa
+        chk.error('%s: the borrowed rules of %s could not be evaluated (%s)' % (rid, module.upper(), e))
+        return
+    got = 0
+    for r_ in rules:
+        rr = sub.rules.get(r_)
+        if rr is None:
+            chk.error('%s: rule %s not found in %s' % (rid, r_, module.upper()))
+            continue
+        bad = [v for v in sub.violations if v['rule'] == r_]
+        for v in bad:
+            chk.fail(rid, '%s:%s' % (r_, v['key']), v['what'], v.get('file'), v.get('line'))
+        n_ok = rr['instances'] - rr['failures']
+        if n_ok > 0:
+            chk.ok(rid, r_, sample={'borrowed rule': r_, 'instances': rr['instances'], 'text': rr['text'][:160]})
+            chk.rules[rid]['instances'] += n_ok - 1
+        got += rr['instances']
+    for e in sub.errors:
+        if any(r_ in e for r_ in rules):
+            chk.error('%s: %s' % (rid, e))
